@@ -3219,8 +3219,16 @@ cdata_call(CDataObject *cd, PyObject *args, PyObject *kwds)
                     goto error;
             }
         }
-        else if (convert_from_object(data, argtype, obj) < 0)
-            goto error;
+        else {
+            if ((argtype->ct_flags & (CT_STRUCT | CT_UNION)) &&
+                    !CData_Check(obj)) {
+                /* an initializer that names only some of the fields
+                   leaves the other ones zero, like with ffi.new() */
+                memset(data, 0, argtype->ct_size);
+            }
+            if (convert_from_object(data, argtype, obj) < 0)
+                goto error;
+        }
     }
 
     resultdata = buffer + cif_descr->exchange_offset_arg[0];
@@ -6156,6 +6164,11 @@ static int convert_from_object_fficallback(char *result,
         }
     }
  skip:
+    if ((ctype->ct_flags & (CT_STRUCT | CT_UNION)) && !CData_Check(pyobj)) {
+        /* an initializer that names only some of the fields leaves the
+           other ones zero, like with ffi.new() */
+        memset(result, 0, ctype->ct_size);
+    }
     return convert_from_object(result, ctype, pyobj);
 }
 
